@@ -552,8 +552,41 @@ func runC08(c *fw.Ctx, idx int) fw.Result {
 		}
 		return res
 	}
-	in := gen.MakeUpdown(r, gen.UpdownProfile{MaxQueries: 5, MaxTargets: 30, PAmbTract: 0.35, MultiHit: true})
+	uprof := gen.UpdownProfile{MaxQueries: 5, MaxTargets: 30, PAmbTract: 0.35, MultiHit: true}
+	wideUD := idx%120 == 31
+	if wideUD {
+		// genome scale: rows wider than 2^15 with targets that are mostly N (more than 2^15 ambiguous
+		// columns) next to complete ones, and an ambiguity allowance that keeps them as candidates
+		uprof.Width = [2]int{33500, 41000}
+		uprof.MaxQueries, uprof.MaxTargets = 2, 10
+	}
+	in := gen.MakeUpdown(r, uprof)
+	if wideUD {
+		for k := 0; k < 2 && k < len(in.Targets); k++ {
+			j := r.Intn(len(in.Targets))
+			b := []byte(in.Targets[j].Seq)
+			var same []int
+			for i := range b {
+				if b[i] == in.Ref[i] {
+					same = append(same, i)
+				}
+			}
+			want := r.Range(32768, 33400)
+			for _, x := range r.Perm(len(same)) {
+				if want == 0 {
+					break
+				}
+				b[same[x]] = 'N'
+				want--
+			}
+			in.Targets[j].Seq = string(b)
+		}
+		res.Count("genome_scale_cases", 1)
+	}
 	o, mode := randomUDOpts(r, in)
+	if wideUD {
+		o.ThreshTarget, o.ThreshPair = 100000, 1
+	}
 	if !o.Table && len(in.Queries) >= 2 && r.Chance(0.2) {
 		// two query records with one ID and different sequences (a re-sequenced sample): each is a
 		// query of its own with its own row, in file order (the list form is read by position)
